@@ -9,6 +9,9 @@ def svd_kernel(mat, assume_full_rank=False, matching_rank=True,
 
     _, s, v = np.linalg.svd(mat)
 
+    # rows of v are conjugated right-singular vectors (v is V^H)
+    v = np.conjugate(v)
+
     min_kernel_dim = max(mat.shape[-1] - mat.shape[-2], 0)
 
     if assume_full_rank:
